@@ -292,15 +292,15 @@ type rec15 struct {
 	Eq    bool    `json:"eq"` // bytes.Equal(decoded, original), filter level
 	Obs   []obs   `json:"obs"`
 	// whole stream objects
-	SdEncOk  bool `json:"sdEncOk"`
-	SdRawEq  bool `json:"sdRawEq"`  // StreamDict.Encode produced the same bytes as the filter chain
-	SdLenOk  bool `json:"sdLenOk"`  // Length entry and StreamLength = len(Raw)
-	SdDecOk  bool `json:"sdDecOk"`
-	SdEq     bool `json:"sdEq"`     // decoded content of a fresh stream object = original
-	SdModOk  bool `json:"sdModOk"`  // modify -> Encode -> Decode ran without error
-	SdModEq  bool `json:"sdModEq"`  // ... and returned the modified content
-	SdModNew bool `json:"sdModNew"` // ... and Raw really was re-encoded (differs or content unchanged)
-	File     string `json:"file"`   // "skip" | "ok" | failure description (write -> read of a PDF file)
+	SdEncOk  bool   `json:"sdEncOk"`
+	SdRawEq  bool   `json:"sdRawEq"` // StreamDict.Encode produced the same bytes as the filter chain
+	SdLenOk  bool   `json:"sdLenOk"` // Length entry and StreamLength = len(Raw)
+	SdDecOk  bool   `json:"sdDecOk"`
+	SdEq     bool   `json:"sdEq"`     // decoded content of a fresh stream object = original
+	SdModOk  bool   `json:"sdModOk"`  // modify -> Encode -> Decode ran without error
+	SdModEq  bool   `json:"sdModEq"`  // ... and returned the modified content
+	SdModNew bool   `json:"sdModNew"` // ... and Raw really was re-encoded (differs or content unchanged)
+	File     string `json:"file"`     // "skip" | "ok" | failure description (write -> read of a PDF file)
 	Err      string `json:"err"`
 }
 
@@ -462,6 +462,61 @@ func runC15(casesPath, outPath string, seed int64, capBytes int, withFile bool) 
 	h.Summary(map[string]any{"cases": n, "nontrivial": nontriv, "kinds": kinds})
 }
 
+// streamDictText renders /Filter and /DecodeParms of a pipeline (single: name + dict form instead of arrays).
+func streamDictText(pipe []stage, single bool) string {
+	var fa, pa []string
+	anyParms := false
+	for _, s := range pipe {
+		fa = append(fa, "/"+fname[s.F])
+		pa = append(pa, s.pdfParms())
+		if len(s.parms()) > 0 {
+			anyParms = true
+		}
+	}
+	dict := ""
+	if single && len(pipe) == 1 {
+		dict = "/Filter " + fa[0]
+		if anyParms {
+			dict += " /DecodeParms " + pa[0]
+		}
+	} else {
+		dict = "/Filter [" + strings.Join(fa, " ") + "]"
+		if anyParms {
+			dict += " /DecodeParms [" + strings.Join(pa, " ") + "]"
+		}
+	}
+	return dict
+}
+
+// onePageDoc: a PDF whose only stream is the page content stream with the given dictionary entries and data.
+func onePageDoc(dict string, data []byte) []byte {
+	doc := &rawpdf.Doc{}
+	root := doc.Reserve()
+	pages := doc.Reserve()
+	doc.Root = root
+	c := doc.AddStream(dict, data)
+	p := doc.Add(fmt.Sprintf("<< /Type /Page /Parent %d 0 R /MediaBox [0 0 100 100] /Resources << >> /Contents %d 0 R >>", pages, c))
+	doc.Set(pages, fmt.Sprintf("<< /Type /Pages /Count 1 /Kids [%d 0 R] >>", p))
+	doc.Set(root, fmt.Sprintf("<< /Type /Catalog /Pages %d 0 R >>", pages))
+	return doc.Bytes()
+}
+
+func pageContentSD(ctx *model.Context, page int) (*types.StreamDict, int, error) {
+	d, _, _, err := ctx.PageDict(page, false)
+	if err != nil {
+		return nil, 0, err
+	}
+	ir := d.IndirectRefEntry("Contents")
+	if ir == nil {
+		return nil, 0, errors.New("no Contents reference")
+	}
+	sd, _, err := ctx.DereferenceStreamDict(*ir)
+	if err != nil || sd == nil {
+		return nil, 0, fmt.Errorf("dereference stream: %v", err)
+	}
+	return sd, ir.ObjectNumber.Value(), nil
+}
+
 // fileRoundTrip: the encoded streams of a batch become the page content streams of one PDF file emitted
 // byte by byte (rawpdf); pdfcpu reads the file, every stream is decoded (expected: the original), modified,
 // re-encoded, the context is written, read again and decoded (expected: the modified content).
@@ -487,27 +542,7 @@ func fileRoundTrip(batch []*rec15, data [][]byte) {
 		for k := len(r.Pipe) - 1; k >= 0; k-- {
 			cur = encodeStage(r.Pipe[k], cur).data
 		}
-		var fa, pa []string
-		anyParms := false
-		for _, s := range r.Pipe {
-			fa = append(fa, "/"+fname[s.F])
-			pa = append(pa, s.pdfParms())
-			if len(s.parms()) > 0 {
-				anyParms = true
-			}
-		}
-		dict := ""
-		if len(r.Pipe) == 1 && i%2 == 0 {
-			dict = "/Filter " + fa[0]
-			if anyParms {
-				dict += " /DecodeParms " + pa[0]
-			}
-		} else {
-			dict = "/Filter [" + strings.Join(fa, " ") + "]"
-			if anyParms {
-				dict += " /DecodeParms [" + strings.Join(pa, " ") + "]"
-			}
-		}
+		dict := streamDictText(r.Pipe, len(r.Pipe) == 1 && i%2 == 0)
 		c := doc.AddStream(dict, cur)
 		p := doc.Add(fmt.Sprintf("<< /Type /Page /Parent %d 0 R /MediaBox [0 0 100 100] /Resources << >> /Contents %d 0 R >>", pages, c))
 		kids = append(kids, fmt.Sprintf("%d 0 R", p))
@@ -524,28 +559,13 @@ func fileRoundTrip(batch []*rec15, data [][]byte) {
 		fail("read: " + err.Error())
 		return
 	}
-	contentSD := func(ctx *model.Context, page int) (*types.StreamDict, int, error) {
-		d, _, _, err := ctx.PageDict(page, false)
-		if err != nil {
-			return nil, 0, err
-		}
-		ir := d.IndirectRefEntry("Contents")
-		if ir == nil {
-			return nil, 0, errors.New("no Contents reference")
-		}
-		sd, _, err := ctx.DereferenceStreamDict(*ir)
-		if err != nil || sd == nil {
-			return nil, 0, fmt.Errorf("dereference stream: %v", err)
-		}
-		return sd, ir.ObjectNumber.Value(), nil
-	}
 	if err := ctx.EnsurePageCount(); err != nil {
 		fail("page count: " + err.Error())
 		return
 	}
 	live := map[int]bool{}
 	for i, r := range batch {
-		sd, objNr, err := contentSD(ctx, i+1)
+		sd, objNr, err := pageContentSD(ctx, i+1)
 		if err != nil {
 			r.File = "read stream: " + err.Error()
 			continue
@@ -603,7 +623,7 @@ func fileRoundTrip(batch []*rec15, data [][]byte) {
 		if !live[i] {
 			continue
 		}
-		sd, _, err := contentSD(ctx2, i+1)
+		sd, _, err := pageContentSD(ctx2, i+1)
 		if err != nil {
 			r.File = "re-read stream: " + err.Error()
 			continue
@@ -624,7 +644,7 @@ func fileRoundTrip(batch []*rec15, data [][]byte) {
 
 type rec16 struct {
 	ID   int     `json:"id"`
-	API  string  `json:"api"`  // "F" filter.NewFilter(...).Decode/DecodeLength, "SD" StreamDict.DecodeLengthWithLimit
+	API  string  `json:"api"`  // "F" filter.NewFilter(...).Decode/DecodeLength, "SD" StreamDict.DecodeLengthWithLimit, "CFG" Configuration.Limits while reading a file
 	Mode string  `json:"mode"` // "limit" (unbounded decode under limit arg) | "bounded" (DecodeLength arg)
 	Pipe []stage `json:"pipe"`
 	Ds   []int   `json:"ds"` // decoded output length of every stage (unlimited decode), last = D
@@ -670,8 +690,14 @@ func runC16(casesPath, outPath string, seed int64, maxD int) {
 			return err
 		}
 		ncases++
-		x0 := expand(c.Inp, seed)
 		last := len(c.Pipe) - 1
+		var x0 []byte
+		if c.Inp.Kind == "rows" {
+			// n whole rows of predictor-encoded data for the last stage
+			x0 = expand(inp{Kind: "rnd", N: c.Inp.N * c.Pipe[last].rowLen(), A: c.Inp.A, B: ncases}, seed)
+		} else {
+			x0 = expand(c.Inp, seed)
+		}
 		// encoded input: the last stage decodes to the final data
 		cur := x0
 		for i := last; i >= 0; i-- {
@@ -742,6 +768,36 @@ func runC16(casesPath, outPath string, seed int64, maxD int) {
 			put("SD", "limit", L, sdDecode(-1, int64(L)))
 		}
 		put("SD", "limit", -1, sdDecode(-1, -1))
+		// the limit given as model.Configuration.Limits.MaxDecodeBytes while reading a PDF file whose only stream is this one
+		pdf := onePageDoc(streamDictText(c.Pipe, ncases%2 == 0), enc)
+		cfgLims := map[int]bool{}
+		for _, d := range ds {
+			for _, L := range []int{d - 1, d, d + 1} {
+				if L >= 1 {
+					cfgLims[L] = true
+				}
+			}
+		}
+		for L := range cfgLims {
+			put("CFG", "limit", L, guard(func() (io.Reader, error) {
+				conf := model.NewDefaultConfiguration()
+				conf.ValidationMode = model.ValidationRelaxed
+				conf.DecodeAllStreams = true
+				conf.Limits.MaxDecodeBytes = int64(L)
+				ctx, err := api.ReadContext(bytes.NewReader(pdf), conf)
+				if err != nil {
+					return nil, err
+				}
+				if err := ctx.EnsurePageCount(); err != nil {
+					return nil, fmt.Errorf("harness: %v", err)
+				}
+				sd, _, err := pageContentSD(ctx, 1)
+				if err != nil {
+					return nil, fmt.Errorf("harness: %v", err)
+				}
+				return bytes.NewReader(sd.Content), nil
+			}))
+		}
 		for n := 0; n <= D+2; n++ {
 			if len(c.Pipe) == 1 {
 				f := newFilter(c.Pipe[0])
@@ -781,7 +837,7 @@ func runC17(outPath string, seed int64, n int, reps int) {
 	w := h.NewW(outPath)
 	defer w.Close()
 	type pc struct {
-		f                            string
+		f                             string
 		pred, colors, bpc, cols, rows int
 	}
 	var grid []pc
